@@ -264,11 +264,16 @@ func (w *response) Write(b []byte) (int, error) {
 		return msc.Write(b)
 	}
 	n, err := w.conn.buf.Writer.Write(b)
-	if err != nil {
-		return 0, err
+	if err == nil {
+		err = w.conn.buf.Writer.Flush()
 	}
-	if err = w.conn.buf.Writer.Flush(); err != nil {
-		return 0, err
+	if err != nil {
+		// Report the bytes that reached the connection and forget the
+		// rest along with the buffered writer's sticky error, so that
+		// the caller can resume after a temporary failure.
+		n -= w.conn.buf.Writer.Buffered()
+		w.conn.buf.Writer.Reset(w.conn.rwc)
+		return n, err
 	}
 	return n, nil
 }
